@@ -965,6 +965,10 @@ func (a *typedArrayObject) iterateStringKeys() iterNextFunc {
 
 func (a *typedArrayObject) exportToArrayOrSlice(dst reflect.Value, typ reflect.Type, ctx *objectExportCtx) error {
 	if typ == typeBytes {
+		if a.viewedArrayBuf.detached {
+			dst.Set(reflect.Zero(typ)) // like ArrayBuffer.Bytes()
+			return nil
+		}
 		dst.Set(reflect.ValueOf(a.viewedArrayBuf.data[a.offset*a.elemSize : (a.offset+a.length)*a.elemSize]))
 		return nil
 	}
@@ -972,6 +976,10 @@ func (a *typedArrayObject) exportToArrayOrSlice(dst reflect.Value, typ reflect.T
 }
 
 func (a *typedArrayObject) export(_ *objectExportCtx) interface{} {
+	if a.viewedArrayBuf.detached {
+		// the base is nil: a slice of the old length at the old offset would point into the zero page
+		return a.typedArray.export(0, 0)
+	}
 	return a.typedArray.export(a.offset, a.length)
 }
 
@@ -981,6 +989,10 @@ func (a *typedArrayObject) exportType() reflect.Type {
 
 func (o *dataViewObject) exportToArrayOrSlice(dst reflect.Value, typ reflect.Type, ctx *objectExportCtx) error {
 	if typ == typeBytes {
+		if o.viewedArrayBuf.detached {
+			dst.Set(reflect.Zero(typ)) // like ArrayBuffer.Bytes()
+			return nil
+		}
 		dst.Set(reflect.ValueOf(o.viewedArrayBuf.data[o.byteOffset : o.byteOffset+o.byteLen]))
 		return nil
 	}
